@@ -4,9 +4,11 @@ tier="${1:-quick}"
 [ $# -gt 0 ] && shift
 ids="${*:-C01 C02 C03 C04 C05 C06 C07 C08 C09 C10 C11 C12 C13 C14 C15 C16}"
 cd "$(dirname "$0")/.."
+logs=$(mktemp -d /tmp/run_all.XXXXXX)
 for id in $ids; do
   s=$(date +%s)
-  ./check $id --tier $tier > /tmp/run_all.$id.log 2>&1; rc=$?
+  ./check $id --tier $tier > $logs/$id.log 2>&1; rc=$?
   e=$(date +%s)
-  echo "$id rc=$rc $((e-s))s :: $(grep -c '^VIOLATION' /tmp/run_all.$id.log) violations, $(grep -c '^KNOWN-FINDING' /tmp/run_all.$id.log) known :: $(tail -1 /tmp/run_all.$id.log | cut -c1-160)"
+  echo "$id rc=$rc $((e-s))s :: $(grep -c '^VIOLATION' $logs/$id.log) violations, $(grep -c '^KNOWN-FINDING' $logs/$id.log) known :: $(tail -1 $logs/$id.log | cut -c1-160)"
 done
+echo "logs: $logs"
